@@ -57,6 +57,16 @@ func runC18(r *run) {
 			must(os.Chdir(altDir))
 			wd, _ = os.Getwd()
 		}
+		if h%5 == 2 {
+			// a working directory that is an ancestor of the protected directories (a daemon started in /, or in the
+			// parent of the home directory): the relative name of a protected file still spells the protected directory out
+			dir := "/"
+			if h%10 == 7 && home != "" {
+				dir = filepath.Dir(home)
+			}
+			must(os.Chdir(dir))
+			wd, _ = os.Getwd()
+		}
 		slog.VerifResetGlobals()
 		rules := []c18Rule{{false, c18VolExpr, "~"}}
 		homeRemoved := false
@@ -255,6 +265,15 @@ func runC18(r *run) {
 							if k != "" && strings.HasPrefix(p, k) && strings.HasPrefix(s, k) {
 								r.violate(violation{What: "a path under a registered mapping is reported with that directory prefix", Input: input, Actual: s})
 							}
+						}
+						// the same prefixes spelled relative to the working directory of the moment
+						for k := range mine {
+							if rk, err := filepath.Rel(wd, k); err == nil && filepath.IsAbs(k) && rk != "." && !strings.HasPrefix(rk, "..") && strings.HasPrefix(p, k+"/") && strings.HasPrefix(s, rk+"/") {
+								r.violate(violation{What: "a path under a registered mapping is reported with that directory prefix (spelled relative to the working directory)", Input: input, Actual: s})
+							}
+						}
+						if rh, err := filepath.Rel(wd, home); err == nil && underHome && !homeRemoved && rh != "." && !strings.HasPrefix(rh, "..") && strings.HasPrefix(p, home+"/") && strings.HasPrefix(s, rh+"/") {
+							r.violate(violation{What: "a path under the home directory is reported with the home prefix (spelled relative to the working directory) although the privacy flag is on", Input: input, Actual: s})
 						}
 						if underHome && strings.HasPrefix(s, home) {
 							v := violation{What: "a path under the home directory is reported with the home prefix although the privacy flag is on", Input: input, Actual: s}
